@@ -168,10 +168,22 @@ def unknown_flag(argv):
     return None
 
 
+DEBUG_LINES = ["next", "step", "continue", "info", "list", "ll", "print R1", "R1 = 5", "undo", "restart", "break 1", "help asm",
+               "asm ADD(R1, R2, R3)", "asm print_reg(R1)", "asm println(\"x\")", "asm SET(R1, 5) print(\"a\")", "asm __eval(\"1\")",
+               "asm INTEGER(5)", "asm LP_STRING(\"ab\")", "asm SWI(1)", "asm NOSUCH(1)", "asm", "dis 0x20cd", "dis -1", "doc ADD",
+               "execute print_reg(R1)", "execute SET(R2, 7)", "execute __eval(\"1/0\")", "goto 1", "xyzzy", "", "print ((((", "next 3"]
+
+
 def known_replays(ctx, findings):
     """Findings recorded with an argument vector that must be a usage error."""
     out = []
     for e in findings:
+        if e["id"] == "D57":
+            r = real_parse(e["argv"])
+            bad = None if r.get("path") == e["path"] else "hera %s: the file argument is taken to be %r, it is written %r" % (
+                " ".join(e["argv"]), r.get("path"), e["path"])
+            out.append((e, bad is not None, bad))
+            continue
         if "argv" not in e or e["id"] not in ("D42", "D54"):
             continue
         r = real_parse(e["argv"])
@@ -245,7 +257,12 @@ def main_oracle(rng, root, fixed=None):
     if kind == "unwritable" and not any(a == "assemble" for a in argv):
         argv = ["assemble"] + [a for a in argv if a not in ("debug", "preprocess", "disassemble")]
     oldin = sys.stdin
-    sys.stdin = io.StringIO("")
+    script = ""
+    if "debug" in argv and p in argv and "-" not in argv:
+        # a debugging session typed on standard input: whatever the commands, no traceback and a documented status
+        # (seed C18h: `asm print_reg(R1)` ended `hera debug` with a TypeError)
+        script = "".join(rng.choice(DEBUG_LINES) + "\n" for _ in range(rng.choice([0, 1, 3, 6, 10]))) + rng.choice(["", "quit\n"])
+    sys.stdin = io.StringIO(script)
     try:
         with contextlib.redirect_stdout(out), contextlib.redirect_stderr(err):
             try:
@@ -260,6 +277,8 @@ def main_oracle(rng, root, fixed=None):
         sys.stdin = oldin
     out, err = out.getvalue(), err.getvalue()
     what = "hera %s" % " ".join(a if a != p else "<%s file>" % kind for a in argv)
+    if script:
+        what += " with standard input %r" % script
     if exc:
         return "%s: %s (a traceback for the user)" % (what, exc), kind
     if code not in (0, 1, 3):
@@ -354,7 +373,9 @@ def correspondence(ctx, model_available=True):
     argvs = [[], ["p.hera"], ["--help"], ["-h", "p.hera"], ["--throttle", "5", "p.hera"], ["--throttle=abc", "p.hera"],
              ["--throttle", "p.hera"], ["--init", "r1=5", "p.hera"], ["--init"], ["--", "--help"], ["p.hera", "q.hera"],
              ["debug", "--stdout", "p.hera"], ["preprocess", "--throttle", "0", "p.hera"], ["assemble", "--init=", "p.hera"],
-             ["assemble", "--throttle=0", "p.hera"], ["preprocess", "--init", "", "p.hera"], ["debug", "--throttle", "000", "p.hera"], ["--quiet", "--verbose", "p.hera"], ["assemble", "--code", "--data", "--stdout", "p.hera"]]
+             ["assemble", "--throttle=0", "p.hera"], ["preprocess", "--init", "", "p.hera"], ["debug", "--throttle", "000", "p.hera"], ["--quiet", "--verbose", "p.hera"], ["assemble", "--code", "--data", "--stdout", "p.hera"],
+             # after a bare --, arguments are file names as written (D57: -q became --quiet)
+             ["--", "-q"], ["--", "-h"], ["-q", "--", "-v"], ["--", "--", "-q"], ["debug", "--", "-h"], ["--", "-x"], ["--", "--init=r1=5"]]
     argvs += [gen_argv(rng) for _ in range(800 if quick else 15000)]
     impl = [real_parse(a) for a in argvs]
     spec_failures, disagreements = [], []
@@ -382,7 +403,18 @@ def correspondence(ctx, model_available=True):
     for a, r in zip(argvs, impl):
         if "--" in a or r["kind"] == "raise":
             continue
+        # an argument that is itself the value of a preceding --throttle / --init is not in flag position (false alarm of
+        # thorough run 5: `--init --throttle =5` has --throttle as the value of --init)
+        value_pos, j = set(), 0
+        while j < len(a):
+            if a[j] in ("--throttle", "--init") and j + 1 < len(a):
+                value_pos.add(j + 1)
+                j += 2
+            else:
+                j += 1
         for i, x in enumerate(a):
+            if i in value_pos:
+                continue
             for f in ("--throttle", "--init"):
                 b = None
                 if x.startswith(f + "=") and len(x) > len(f) + 1:
@@ -438,7 +470,11 @@ def correspondence(ctx, model_available=True):
     root = tempfile.mkdtemp(prefix="hera_cli_")
     try:
         for k in range(250 if quick else 4000):
-            p, kind = main_oracle(rng, root, FIXED_MAIN[k] if k < len(FIXED_MAIN) else None)
+            fixed = FIXED_MAIN[k] if k < len(FIXED_MAIN) else None
+            if fixed is None and k % 6 == 0:
+                # a debugging session on a valid program, driven from standard input
+                fixed = (rng.choice(["good", "data", "warn"]), rng.choice([["debug", "P"], ["debug", "--big-stack", "P"], ["debug", "-q", "P"]]))
+            p, kind = main_oracle(rng, root, fixed)
             st["main_runs"] += 1
             st["by_input"][kind] = st["by_input"].get(kind, 0) + 1
             if p:
